@@ -473,6 +473,172 @@ def _norm_key_expr(e: ast.AST, casing_name: str, field_name: str) -> str:
     return ast.unparse(R().visit(copy.deepcopy(e)))
 
 
+def _normalised_init(mod, init: ast.AST, table_attr: str) -> ast.AST:
+    """A copy of the metadata constructor in which (a) the statement `self.<table> = self.M(args)` / `T = self.M(args)`
+    (M a method of the metadata whose body is straight-line code ending in its only return) is replaced by M's body over
+    renamed locals, and (b) `T = {K: V for a in A for b in B}` is written as the loops it abbreviates.  Both rewritings
+    preserve what the constructor computes; they only bring other spellings to the form the table analysis reads."""
+    import copy
+    fn = copy.deepcopy(init)
+    self_name = fn.args.args[0].arg
+
+    def inline(st):
+        tgt = st.targets[0] if isinstance(st, ast.Assign) and len(st.targets) == 1 else getattr(st, "target", None)
+        v = getattr(st, "value", None)
+        if tgt is None or not (isinstance(v, ast.Call) and isinstance(v.func, ast.Attribute) and not v.keywords):
+            return None
+        base = ast.unparse(v.func.value)
+        if base not in (self_name, "ProtoClassMetadata", f"type({self_name})", f"{self_name}.__class__") or not mod.has(f"ProtoClassMetadata.{v.func.attr}"):
+            return None
+        m = mod.func(f"ProtoClassMetadata.{v.func.attr}")
+        static = any(ast.unparse(d) == "staticmethod" for d in m.decorator_list)
+        params = [a.arg for a in m.args.args]
+        if not static:
+            params = params[1:]
+        if len(params) != len(v.args) or m.args.vararg or m.args.kwarg or m.args.kwonlyargs:
+            return None
+        body = [b for b in m.body if not (isinstance(b, ast.Expr) and isinstance(b.value, ast.Constant))]
+        if not body or not isinstance(body[-1], ast.Return) or body[-1].value is None or any(isinstance(n, (ast.Return, ast.Yield, ast.YieldFrom)) for b in body[:-1] for n in ast.walk(b)):
+            return None
+        local = set(params) | {n.id for b in body for n in ast.walk(b) if isinstance(n, ast.Name) and isinstance(n.ctx, ast.Store)}
+
+        class Ren(ast.NodeTransformer):
+            def visit_Name(self, n):
+                if n.id in local:
+                    return ast.copy_location(ast.Name(n.id + "__inl", n.ctx), n)
+                if not static and n.id == m.args.args[0].arg:
+                    return ast.copy_location(ast.Name(self_name, n.ctx), n)
+                return n
+        out = [ast.copy_location(ast.Assign([ast.Name(p_ + "__inl", ast.Store())], a, lineno=st.lineno), st) for p_, a in zip(params, v.args)]
+        for b in body[:-1]:
+            out.append(Ren().visit(copy.deepcopy(b)))
+        out.append(ast.copy_location(ast.Assign([tgt], Ren().visit(copy.deepcopy(body[-1].value)), lineno=st.lineno), st))
+        return out
+
+    def desugar(st):
+        tgt = st.targets[0] if isinstance(st, ast.Assign) and len(st.targets) == 1 else getattr(st, "target", None)
+        v = getattr(st, "value", None)
+        if not (isinstance(tgt, ast.Name) and isinstance(v, ast.DictComp) and len(v.generators) >= 2 and not any(g.ifs or g.is_async for g in v.generators)):
+            return None
+        inner: ast.stmt = ast.Assign([ast.Subscript(ast.Name(tgt.id, ast.Load()), v.key, ast.Store())], v.value, lineno=st.lineno)
+        for g in reversed(v.generators):
+            inner = ast.For(g.target, g.iter, [inner], [], lineno=st.lineno)
+        return [ast.copy_location(ast.Assign([ast.Name(tgt.id, ast.Store())], ast.Dict([], []), lineno=st.lineno), st), inner]
+
+    flows = {table_attr}
+    for n in ast.walk(fn):
+        if isinstance(n, ast.Assign) and isinstance(n.targets[0], ast.Attribute) and n.targets[0].attr == table_attr and isinstance(n.value, ast.Name):
+            flows.add(n.value.id)
+    for _ in range(3):
+        new = []
+        changed = False
+        for st in fn.body:
+            tgt = st.targets[0] if isinstance(st, ast.Assign) and len(st.targets) == 1 else getattr(st, "target", None)
+            rel = (isinstance(tgt, ast.Name) and tgt.id in flows) or (isinstance(tgt, ast.Attribute) and tgt.attr in flows)
+            r = (inline(st) or desugar(st)) if rel and isinstance(st, (ast.Assign, ast.AnnAssign)) else None
+            if r is None:
+                new.append(st)
+            else:
+                new += r
+                changed = True
+                for x in r:
+                    if isinstance(x, ast.Assign) and isinstance(x.value, ast.Name) and ((isinstance(x.targets[0], ast.Name) and x.targets[0].id in flows)
+                                                                                      or (isinstance(x.targets[0], ast.Attribute) and x.targets[0].attr in flows)):
+                        flows.add(x.value.id)
+        fn.body = new
+        if not changed:
+            break
+    ast.fix_missing_locations(fn)
+    return fn
+
+
+def _enumeration_kinds(init: ast.AST, seed_keyed, seed_fields):
+    """-> {id(For node): kind of what its iterable enumerates}, kinds: 'fields' (every dataclass field), 'names' / 'keyed'
+    (every field name; a dict keyed by every field name), 'pairs_name' ((name, x) for every field).  One ordered walk over
+    the constructor's statements with an environment of local names and self attributes."""
+    self_name = init.args.args[0].arg
+    env = {}
+    kinds = {}
+
+    def look(e):
+        t = ast.unparse(e)
+        if t in env:
+            return env[t]
+        if isinstance(e, ast.Name) and e.id in seed_keyed:
+            return "keyed"
+        if isinstance(e, ast.Name) and e.id in seed_fields:
+            return "fields"
+        return None
+
+    def comp_kind(gens, first, dict_key=None):
+        if len(gens) != 1 or gens[0].ifs:
+            return None
+        k = kind(gens[0].iter)
+        t = gens[0].target
+        name_text = None
+        if k == "fields" and isinstance(t, ast.Name):
+            name_text = f"{t.id}.name"
+        elif k in ("names", "keyed") and isinstance(t, ast.Name):
+            name_text = t.id
+        elif k == "pairs_name" and isinstance(t, ast.Tuple) and t.elts and isinstance(t.elts[0], ast.Name):
+            name_text = t.elts[0].id
+        if name_text is None:
+            return None
+        if dict_key is not None:
+            return "keyed" if ast.unparse(dict_key) == name_text else None
+        if ast.unparse(first) == name_text:
+            return "names"
+        if isinstance(first, ast.Tuple) and first.elts and ast.unparse(first.elts[0]) == name_text:
+            return "pairs_name"
+        return None
+
+    def kind(e):
+        if isinstance(e, (ast.Name, ast.Attribute)):
+            return look(e)
+        if isinstance(e, ast.Call) and not e.keywords:
+            f = ast.unparse(e.func)
+            if f.endswith("fields") and len(e.args) == 1 and f in ("fields", "dataclasses.fields"):
+                return "fields"
+            if f in ("tuple", "list", "sorted", "reversed", "iter") and len(e.args) == 1:
+                k = kind(e.args[0])
+                return "names" if k == "keyed" else k
+            if f == "dict" and len(e.args) == 1:
+                k = kind(e.args[0])
+                return "keyed" if k in ("pairs_name", "keyed") else None
+            if isinstance(e.func, ast.Attribute) and not e.args:
+                k = kind(e.func.value)
+                if k == "keyed" and e.func.attr == "keys":
+                    return "names"
+                if k == "keyed" and e.func.attr == "items":
+                    return "pairs_name"
+            return None
+        if isinstance(e, (ast.ListComp, ast.GeneratorExp)):
+            return comp_kind(e.generators, e.elt)
+        if isinstance(e, ast.DictComp):
+            return comp_kind(e.generators, None, e.key)
+        return None
+
+    def walk(stmts):
+        for st in stmts:
+            if isinstance(st, (ast.Assign, ast.AnnAssign)) and getattr(st, "value", None) is not None:
+                tgts = st.targets if isinstance(st, ast.Assign) else [st.target]
+                k = kind(st.value)
+                for t in tgts:
+                    if isinstance(t, ast.Name) or (isinstance(t, ast.Attribute) and isinstance(t.value, ast.Name) and t.value.id == self_name):
+                        if k is None:
+                            env.pop(ast.unparse(t), None)
+                        else:
+                            env[ast.unparse(t)] = k
+            elif isinstance(st, ast.For):
+                kinds[id(st)] = kind(st.iter)
+                walk(st.body)
+            elif isinstance(st, (ast.If, ast.With, ast.Try)):
+                for blk in ("body", "orelse", "finalbody"):
+                    walk(getattr(st, blk, []) or [])
+    walk(init.body)
+    return kinds
+
+
 def _resolve_name_table(mod, fn: ast.AST, expr: ast.AST):
     """`X[f]` where the local X was obtained from a method M(arg) of the class metadata that returns the table
     {name: E(arg, name) for name in <all fields>} (possibly through a memo that is only ever filled with M's own results):
@@ -665,6 +831,7 @@ def rule_I3(ctx, rule: str = "I3") -> None:
     # table construction in __init__ (the table has to be complete before the first from_dict, which may precede any to_dict):
     # fills `T[KEY] = field` / `T.setdefault(KEY, field)` inside a loop over all fields, the casing either a loop
     # variable over a literal tuple or written out.  Local copies of the field name (`name = field.name`) are looked through.
+    init = _normalised_init(mod, init, table_attr)
     assigned = [n for n in ast.walk(init) if isinstance(n, ast.Assign) and isinstance(n.targets[0], ast.Attribute) and n.targets[0].attr == table_attr]
     if not assigned:
         ctx.refuted(rule, "key-table:construction", "not-built-at-construction", mod.loc(init),
@@ -681,9 +848,10 @@ def rule_I3(ctx, rule: str = "I3") -> None:
         """source texts that denote the name of the current field inside this loop"""
         it = ast.unparse(loop.iter)
         base = None
-        if it in field_lists:
+        ek = _enumeration_kinds(init, name_keyed, field_lists).get(id(loop))
+        if it in field_lists or ek == "fields":
             base = f"{loop.target.id}.name"
-        elif it in name_keyed or (it.endswith(".keys()") and it[:-7] in name_keyed):
+        elif it in name_keyed or (it.endswith(".keys()") and it[:-7] in name_keyed) or ek in ("names", "keyed"):
             base = loop.target.id
         if base is None:
             return set()
